@@ -64,7 +64,7 @@ def build_coq():
     """Full .vo build of the Coq development (make, never -vos) + extraction + OCaml driver.
     Returns (ok, log)."""
     with Lock("coq"):
-        rc, out, err = sh(["bash", os.path.join(ROOT, "build_model.sh")], timeout=3000)
+        rc, out, err = sh(["bash", os.path.join(ROOT, "build_model.sh")], timeout=6000)
         log = out + err
         ok = rc == 0 and os.path.exists(MODEL) and "Error" not in log
         return ok, log
